@@ -70,7 +70,8 @@ SOURCES = [
 REQUIRED = [
     'cfg_ASSEMBLER_MAX_SEGMENT_COUNT',
     'tcp_CLOSE_DELAY', 'tcp_ACK_DELAY_DEFAULT', 'tcp_DEFAULT_MSS', 'tcp_MIN_REMOTE_MSS',
-    'tcp_RTTE_INITIAL_RTO', 'tcp_RTTE_MIN_RTO', 'tcp_RTTE_MAX_RTO',
+    'tcp_RTTE_INITIAL_RTO', 'tcp_RTTE_MIN_RTO', 'tcp_RTTE_MAX_RTO', 'tcp_RTTE_K', 'tcp_RTTE_MIN_MARGIN',
+    'reno_DEFAULT_MSS', 'wtcp_HEADER_LEN',
     'neigh_SILENT_TIME', 'neigh_ENTRY_LIFETIME', 'meta_DISCOVERY_SILENT_TIME',
     'cfg_IFACE_NEIGHBOR_CACHE_COUNT', 'cfg_IFACE_MAX_ROUTE_COUNT',
     'dns_RETRANSMIT_DELAY', 'dns_MAX_RETRANSMIT_DELAY', 'dns_RETRANSMIT_TIMEOUT', 'dns_DNS_PORT',
